@@ -315,6 +315,11 @@ impl Disk
         out
     }
 
+    pub fn file_count(&self) -> usize
+    {
+        self.paths.values().filter(|e| match e { Entry::File(_) => true, _ => false }).count()
+    }
+
     pub fn image(&self) -> DiskImage
     {
         let mut dirs = vec![];
